@@ -38,6 +38,17 @@ def decompile(data):
     except Exception as e:  # noqa: BLE001
         d.status = "refused"
         d.error = e
+        if d.phase in ("interpret", "unparse") and d.pickled is not None:
+            # a refusal must stay a refusal: asking the same object again (as a caller that
+            # caught the first error might) must not yield a program with the operation left out
+            for _ in range(2):
+                try:
+                    d.src = ast.unparse(d.pickled.ast)
+                    d.status = "ok"
+                    d.phase = "retry-after-refusal"
+                    break
+                except Exception:  # noqa: BLE001
+                    continue
     return d
 
 
